@@ -298,12 +298,6 @@ type c06Seg struct {
 	adv   string   // adversarial kind ("" = ordinary)
 }
 
-func le64(v int64) []byte {
-	b := make([]byte, 8)
-	binary.LittleEndian.PutUint64(b, uint64(v))
-	return b
-}
-
 func c06TGRecord(body []byte) []byte {
 	l := le64(int64(len(body)))
 	h := md5.New() //nolint:gosec
